@@ -21,7 +21,7 @@ from .. import rot
 
 PROPERTY = "C24"
 LEVEL = "fault_enumeration"
-BUDGET = {"quick": 96, "thorough": 1500}
+BUDGET = {"quick": 96, "thorough": 1000}
 CHUNK = 1
 RUN_TIMEOUT_S = 1500
 MAX_DISCARD_FRACTION = 0.6
@@ -257,6 +257,10 @@ def execute(plan, out, log):
         ref = R.sol
         if not (np.all(np.isfinite(ref.q)) and np.all(np.isfinite(ref.u))):
             raise Discard("nonfinite")
+        if float(np.max(np.abs(ref.u))) > 1e3 * (1.0 + float(np.max(np.abs(ref.u[0])))) and float(np.max(np.abs(ref.u))) > 1e4:
+            # the step size is beyond the stability limit of the (explicit) scheme for this scene - e.g. Moreau on a stiff
+            # rod: the reference run itself blows up and amplifies round-off without bound; nothing can be compared
+            raise Discard(f"unstable_reference_run:{name}")
         scale = 1 + float(np.max(np.abs(ref.q))) + float(np.max(np.abs(ref.u)))
         out["steps"] += N
         if B.scene["joints"]:
